@@ -147,6 +147,13 @@ def oracle(case, impl):
                     fails.append({"site": "cur:fraction", "msg": f"{o} -> {out}"})
                 if sf == "-" and minor == "-" and fr != "1/100":
                     fails.append({"site": "cur:fraction", "msg": f"{o} -> {out}"})
+                # a smallest fraction that was given and accepted IS the smallest
+                # fraction (whether or not a minor unit was given as well)
+                if sf not in ("-", "bad") and not bad:
+                    want = rat(parse_rat(sf.split(":")[0]))
+                    if fr != want:
+                        fails.append({"site": "cur:fraction", "msg":
+                                      f"{o} -> {out}, the given smallest fraction is {want}"})
         elif o[0] == "observe":
             step = case["ops"][i - 1] if i else None
             if step and step[0] == "cur_new" and impl[i - 1].startswith("err") and prev_obs is not None \
